@@ -413,6 +413,10 @@ func (c *Compiler) compileProgram(node *ast.Program) error {
 			if err := c.compile(stmt); err != nil {
 				return err
 			}
+			if isNamedFunc(stmt) {
+				// A named function leaves its value on the stack
+				c.emit(op.PopTop)
+			}
 			if i < count-1 {
 				if stmt.IsExpression() {
 					c.emit(op.PopTop)
@@ -444,6 +448,10 @@ func (c *Compiler) compileBlock(node *ast.Block) error {
 			if err := c.compile(stmt); err != nil {
 				return err
 			}
+			if isNamedFunc(stmt) {
+				// A named function leaves its value on the stack
+				c.emit(op.PopTop)
+			}
 			if i < count-1 {
 				if stmt.IsExpression() {
 					c.emit(op.PopTop)
@@ -471,6 +479,10 @@ func (c *Compiler) compileFunctionBlock(node *ast.Block) error {
 		if err := c.compile(stmt); err != nil {
 			return err
 		}
+		if isNamedFunc(stmt) {
+			// A named function leaves its value on the stack
+			c.emit(op.PopTop)
+		}
 		if i < count-1 {
 			if stmt.IsExpression() {
 				c.emit(op.PopTop)
@@ -478,6 +490,11 @@ func (c *Compiler) compileFunctionBlock(node *ast.Block) error {
 		}
 	}
 	return nil
+}
+
+func isNamedFunc(node ast.Node) bool {
+	fn, ok := node.(*ast.Func)
+	return ok && fn.Name() != nil
 }
 
 func (c *Compiler) compileVar(node *ast.Var) error {
